@@ -23,7 +23,7 @@ MANIFEST = {
                 "pushes no frame, the identity (address) of a List node is a number from an allocation counter that no control "
                 "flow of the model reads; the `emit` template is modelled for the arity-0 overload (the nine overloads differ in "
                 "the argument list only). Single-threaded use. Slot bodies are finite scripts indexed by (listener, slot, "
-                "invocation number); objects are not re-created after destruction. Accesses to a List item after "
+                "invocation number). Accesses to a List item after "
                 "`List::remove` are invisible to ASan (nstd pools list items) - the check would only see their effect on the "
                 "observables. The model mirrors the code WITH the repair of defect D18 (fixes/callback/0001-*.patch); on the "
                 "unpatched tree the check reports the D18 inputs.",
@@ -53,6 +53,10 @@ def top_line(a):
         return "emit %d %d" % a[1:]
     if k == "L":
         return "dell %d" % a[1]
+    if k == "n":
+        return "newl %d" % a[1]
+    if k == "w":
+        return "newe %d" % a[1]
     return "dele %d" % a[1]
 
 
@@ -62,9 +66,9 @@ def parse_tok(t):
 
 def parse_top(line):
     w = line.split()
-    k = {"connect": "c", "disconnect": "d", "emit": "m", "dell": "L", "dele": "E"}.get(w[0])
-    n = {"c": 4, "d": 4, "m": 2, "L": 1, "E": 1}.get(k)
-    bounds = {"c": (NE, NG, NL, NS), "d": (NE, NG, NL, NS), "m": (NE, NG), "L": (NL,), "E": (NE,)}.get(k)
+    k = {"connect": "c", "disconnect": "d", "emit": "m", "dell": "L", "dele": "E", "newl": "n", "newe": "w"}.get(w[0])
+    n = {"c": 4, "d": 4, "m": 2, "L": 1, "E": 1, "n": 1, "w": 1}.get(k)
+    bounds = {"c": (NE, NG, NL, NS), "d": (NE, NG, NL, NS), "m": (NE, NG), "L": (NL,), "E": (NE,), "n": (NL,), "w": (NE,)}.get(k)
     if k is None or len(w) != n + 1 or not all(x.isdigit() and len(x) < 7 for x in w[1:]):
         return None
     v = tuple(int(x) for x in w[1:])
@@ -81,15 +85,18 @@ def history(tops, scripts):
 
 # ---- the property's oracle: the snapshot specification, independent of the Lean model ---------------
 class Spec:
-    """Per (emitter, signal): ordered live connections (born), outerStart.  emit = snapshot of the
-    connections live now and born before the outermost emission in progress began; each one still
-    live at its turn is invoked, in order."""
+    """Per (emitter object, signal): ordered live connections (born), outerStart.  emit = snapshot of
+    the connections live now and born before the outermost emission in progress began; each one still
+    live at its turn is invoked, in order.  The harness variables em[i] / li[i] hold an object or
+    nothing; `n` / `w` put a new object into an empty variable."""
 
     def __init__(self, script_of):
-        self.conns = []            # [e, g, l, s, born, alive] in order of birth
+        self.conns = []            # [emitter object, g, listener object, s, born, alive] in order of birth
         self.clk = 0
-        self.e_alive = [True] * NE
-        self.l_alive = [True] * NL
+        self.e_obj = list(range(NE))          # variable -> object (None = destroyed)
+        self.l_obj = list(range(NL))
+        self.l_index = {l: l for l in range(NL)}   # listener object -> the index it was created for
+        self.next_obj = max(NE, NL)
         self.active = {}
         self.outer = {}
         self.inv = {}
@@ -100,50 +107,61 @@ class Spec:
         k = a[0]
         if k == "c":
             _, e, g, l, s = a
-            if self.e_alive[e] and self.l_alive[l]:
-                self.conns.append([e, g, l, s, self.clk, True])
+            if self.e_obj[e] is not None and self.l_obj[l] is not None:
+                self.conns.append([self.e_obj[e], g, self.l_obj[l], s, self.clk, True])
                 self.clk += 1
         elif k == "d":
             _, e, g, l, s = a
-            if self.e_alive[e] and self.l_alive[l]:
+            if self.e_obj[e] is not None and self.l_obj[l] is not None:
                 for c in self.conns:
-                    if c[5] and c[0] == e and c[1] == g and c[2] == l and c[3] == s:
+                    if c[5] and c[0] == self.e_obj[e] and c[1] == g and c[2] == self.l_obj[l] and c[3] == s:
                         c[5] = False
                         break
         elif k == "m":
             _, e, g = a
-            if not self.e_alive[e]:
+            eo = self.e_obj[e]
+            if eo is None:
                 return
-            key = (e, g)
+            key = (eo, g)
             if self.active.get(key, 0) == 0:
                 self.outer[key] = self.clk
                 self.clk += 1
             self.active[key] = self.active.get(key, 0) + 1
             start = self.outer[key]
-            snap = [c for c in self.conns if c[5] and c[0] == e and c[1] == g and c[4] < start]
+            snap = [c for c in self.conns if c[5] and c[0] == eo and c[1] == g and c[4] < start]
             for c in snap:
-                if not self.e_alive[e]:
+                if eo not in self.e_obj:
                     break
                 if c[5]:
                     self.invoke(c[2], c[3])
-            if self.e_alive[e]:
+            if eo in self.e_obj:
                 self.active[key] -= 1
         elif k == "L":
-            l = a[1]
-            if self.l_alive[l]:
-                self.l_alive[l] = False
+            lo = self.l_obj[a[1]]
+            if lo is not None:
+                self.l_obj[a[1]] = None
                 for c in self.conns:
-                    if c[2] == l:
+                    if c[2] == lo:
                         c[5] = False
         elif k == "E":
-            e = a[1]
-            if self.e_alive[e]:
-                self.e_alive[e] = False
+            eo = self.e_obj[a[1]]
+            if eo is not None:
+                self.e_obj[a[1]] = None
                 for c in self.conns:
-                    if c[0] == e:
+                    if c[0] == eo:
                         c[5] = False
+        elif k == "n":
+            if self.l_obj[a[1]] is None:
+                self.l_obj[a[1]] = self.next_obj
+                self.l_index[self.next_obj] = a[1]
+                self.next_obj += 1
+        elif k == "w":
+            if self.e_obj[a[1]] is None:
+                self.e_obj[a[1]] = self.next_obj
+                self.next_obj += 1
 
-    def invoke(self, l, s):
+    def invoke(self, lo, s):
+        l = self.l_index[lo]
         self.log.append((l, s))
         k = self.inv.get((l, s), 0)
         self.inv[(l, s)] = k + 1
@@ -154,19 +172,22 @@ class Spec:
         live = [c for c in self.conns if c[5]]
         out = ["log" + "".join(" %d.%d" % p for p in self.log), "|"]
         for e in range(NE):
-            if not self.e_alive[e]:
+            eo = self.e_obj[e]
+            if eo is None:
                 out.append("E%d:x" % e)
                 continue
             for g in range(NG):
-                v = ",".join("%d.%d" % (c[2], c[3]) for c in live if c[0] == e and c[1] == g) or "-"
+                v = ",".join("%d.%d" % (self.l_index[c[2]], c[3]) for c in live if c[0] == eo and c[1] == g) or "-"
                 out.append(("E%d:" % e if g == 0 else "") + "g%d=%s" % (g, v))
         out.append("|")
         for l in range(NL):
-            if not self.l_alive[l]:
+            lo = self.l_obj[l]
+            if lo is None:
                 out.append("L%d:x" % l)
                 continue
             for e in range(NE):
-                v = ",".join("%d.%d" % (c[1], c[3]) for c in live if c[2] == l and c[0] == e) or "-"
+                eo = self.e_obj[e]
+                v = ",".join("%d.%d" % (c[1], c[3]) for c in live if c[2] == lo and eo is not None and c[0] == eo) or "-"
                 out.append(("L%d:" % l if e == 0 else "") + "e%d=%s" % (e, v))
         return " ".join(out)
 
@@ -209,7 +230,7 @@ def reference(hist):
 
 
 def parse_top_tok(t):
-    shapes = {"c": (NE, NG, NL, NS), "d": (NE, NG, NL, NS), "m": (NE, NG), "L": (NL,), "E": (NE,)}
+    shapes = {"c": (NE, NG, NL, NS), "d": (NE, NG, NL, NS), "m": (NE, NG), "L": (NL,), "E": (NE,), "n": (NL,), "w": (NE,)}
     b = shapes.get(t[:1])
     if b is None or len(t) != 1 + len(b) or not t[1:].isdigit():
         return None
@@ -225,7 +246,7 @@ class Need(Exception):
         self.n = n
 
 
-def options(seen, U):
+def options(seen, U, recreate=False):
     """actions over universe U = (ne, ng, nl, ns) whose ids are introduced in first-use order
     (emitters, signals, listeners and slots are interchangeable, so one representative per
     renaming class is enough)"""
@@ -249,6 +270,11 @@ def options(seen, U):
         acts.append(("L", l))
     for e in range(ne):
         acts.append(("E", e))
+    if recreate:
+        for l in range(seen[2]):
+            acts.append(("n", l))
+        for e in range(seen[0]):
+            acts.append(("w", e))
     return acts
 
 
@@ -258,7 +284,7 @@ def note_ids(seen, a):
         upd = {0: a[1], 1: a[2], 2: a[3], 3: a[4]}
     elif k == "m":
         upd = {0: a[1], 1: a[2]}
-    elif k == "L":
+    elif k in "Ln":
         upd = {2: a[1]}
     else:
         upd = {0: a[1]}
@@ -285,7 +311,7 @@ def run_choices(choices, U, size):
         return c
 
     def pick_action():
-        opts = options(seen, U)
+        opts = options(seen, U[:4], len(U) > 4)
         a = opts[choose(len(opts))]
         note_ids(seen, a)
         budget[0] -= 1
@@ -367,11 +393,15 @@ def gen_program(rng, size):
             return ("c", e, g, l, s)
         if r < 0.58:
             return ("d", e, g, l, s)
-        if r < 0.86:
+        if r < 0.82:
             return ("m", e, g)
-        if r < 0.94:
+        if r < 0.89:
             return ("L", l)
-        return ("E", e)
+        if r < 0.94:
+            return ("E", e)
+        if r < 0.97:
+            return ("n", l)
+        return ("w", e)
 
     ntop = rng.randrange(3, max(4, min(14, size // 2)))
     tops = []
@@ -411,7 +441,7 @@ def nesting_depth(hist):
 
     class S2(Spec):
         def act(self, a):
-            if a[0] == "m" and self.e_alive[a[1]]:
+            if a[0] == "m" and self.e_obj[a[1]] is not None:
                 depth[0] += 1
                 depth[1] = max(depth[1], depth[0])
                 Spec.act(self, a)
@@ -442,15 +472,18 @@ def histories_for(ctx):
     quick = ctx.tier == "quick"
     hs = C.load_corpus(ctx.prop)
     ncorpus = len(hs)
-    scopes = [((1, 1, 1, 1), 7), ((1, 1, 2, 2), 5), ((2, 2, 2, 2), 3), ((3, 2, 3, 2), 3)] if quick else \
-             [((1, 1, 1, 1), 7), ((1, 1, 2, 2), 6), ((2, 2, 2, 2), 4), ((3, 2, 3, 2), 4)]
+    # a fifth component = the actions "new listener" / "new emitter" are in the alphabet as well
+    scopes = [((1, 1, 1, 1), 6), ((1, 1, 2, 2), 5), ((2, 2, 2, 2), 3), ((3, 2, 3, 2), 3), ((1, 1, 1, 1, True), 5),
+              ((2, 1, 2, 1, True), 4)] if quick else \
+             [((1, 1, 1, 1), 7), ((1, 1, 2, 2), 6), ((2, 2, 2, 2), 4), ((3, 2, 3, 2), 4), ((1, 1, 1, 1, True), 7),
+              ((2, 1, 2, 1, True), 5)]
     ex = []
     desc = []
     import multiprocessing
     with multiprocessing.Pool(C.NCPU) as pool:
         for U, size in scopes:
             e = exhaustive(U, size, pool=pool)
-            desc.append(f"{U[0]}e x {U[1]}g x {U[2]}l x {U[3]}s size<={size}: {len(e)}")
+            desc.append(f"{U[0]}e x {U[1]}g x {U[2]}l x {U[3]}s{' + re-creation' if len(U) > 4 else ''} size<={size}: {len(e)}")
             ex += e
     nrand = 5000 if quick else 100000
     rnd = [gen_program(rng, rng.choice([6, 10, 16, 24, 40])) for _ in range(nrand)]
@@ -462,7 +495,7 @@ def histories_for(ctx):
     ctx.cov["rule"] = (f"corpus ({ncorpus}) + exhaustive: every program (top-level actions + slot scripts, up to renaming of emitters/"
                        f"signals/listeners/slots) of total size <= N in which every scripted cell is invoked [{'; '.join(desc)}] + "
                        f"{len(rnd)} random programs of total size <= 6..40 over 3 emitters x 2 signals x 3 listeners x 2 slots "
-                       "(scripts on invocation numbers < 8, connect/disconnect/emit/delete listener/delete emitter inside slots); "
+                       "(scripts on invocation numbers < 8, connect/disconnect/emit/delete or re-create listener/emitter inside slots); "
                        "distinct_nontrivial = distinct observation streams among programs with >= 3 slot invocations")
     ctx.cov["exhaustive"] = False
     ctx.cov["exhaustive_scope"] = "; ".join(desc)
@@ -486,7 +519,7 @@ def node_is_ghost(ctx):
 def check(ctx):
     ctx.assumptions += [
         "single-threaded use of Callback (the class has no synchronisation)",
-        "ids of destroyed emitters/listeners are not reused (a new object at the address of a destroyed one is a new id)",
+        "a new object is a new id in the model even when the allocator hands out the address of a destroyed object (the harness does re-create objects, so address reuse is exercised)",
         "slot bodies are deterministic scripts of connect/disconnect/emit/delete actions; allocation never fails",
     ]
     proof_ok = C.proof_stage(ctx, PROPS, [DRIVER], leanchecker=(ctx.tier == "thorough"))
